@@ -151,7 +151,10 @@ def run(F, rep, tier):
         return
     helpers = classify_collection_helpers(F)
     rep.floor(r1, "match-collection helpers", len([v for v in helpers.values() if v in ("rule-order", "prioritized")]), 2)
-    ms = [m for m, _ in find_hir(bld["body"], lambda x: x.get("k") == "Match" and x.get("src") == "Normal")]
+    # the dispatch: the match(es) over HitPolicy / BuiltinAggregator in the decision-table module (in the builder's closure, or moved into a method of the evaluated table)
+    def over_policy(m):
+        return any(isinstance(c, str) and (c.startswith(HP + "::") or c.startswith(AG + "::")) for arm in m["arms"] for c in hirflow.Flow.pat_ctors(arm["p"]))
+    ms = [m for n2, h2 in sorted(F.hir.items()) if n2.startswith(DT) for m, _ in find_hir(h2["body"], lambda x: x.get("k") == "Match" and x.get("src") == "Normal") if over_policy(m)]
     dispatch = {}
     wild = False
 
